@@ -1,9 +1,11 @@
 package main
 
 import (
+	"fmt"
 	"go/ast"
 	"go/token"
 	"sort"
+	"strconv"
 	"strings"
 )
 
@@ -17,23 +19,60 @@ func (o *Out) zlStrList(name string, v []string, from string) {
 	o.Facts = append(o.Facts, Fact{name, "List String", "[" + strings.Join(parts, ", ") + "]", from})
 }
 
+// renumberDecl names the placeholders `normalise` (c07.go) put in for locally declared names _v0, _v1, … in the
+// order in which those locals are DECLARED in the source (among the locals that occur in the text; the placeholder
+// carries the position of the declaration). Numbering by first occurrence (`renumber`) would print `a < b` and
+// `b < a` alike when both sides are locals; by declaration order a swapped comparison or a swapped pair of
+// arguments prints differently, while the names themselves, and unrelated locals declared in between, do not matter.
+func renumberDecl(text string) string {
+	marks := localMark.FindAllString(text, -1)
+	pos := func(m string) int { n, _ := strconv.Atoi(m[2 : len(m)-1]); return n }
+	sort.Slice(marks, func(i, j int) bool { return pos(marks[i]) < pos(marks[j]) })
+	num := map[string]string{}
+	for _, m := range marks {
+		if _, ok := num[m]; !ok {
+			num[m] = fmt.Sprintf("_v%d", len(num))
+		}
+	}
+	return localMark.ReplaceAllStringFunc(text, func(m string) string { return num[m] })
+}
+
+// fragments prints several nodes of ONE declaration that is currently normalised (`normalise`, c07.go), each with
+// its white space collapsed, and numbers the locals consistently across all of them (so that two fragments that
+// mention the same local say so).
+func (p *Pkg) fragments(nodes []ast.Node) []string {
+	if len(nodes) == 0 {
+		return nil
+	}
+	raw := make([]string, len(nodes))
+	for i, n := range nodes {
+		raw[i] = p.rawLine(n)
+	}
+	return strings.Split(renumberDecl(strings.Join(raw, "\x00")), "\x00")
+}
+
 // zlComparisons lists, in source order, every comparison expression (== != < <= > >=) of a function body
-// as source text: the table of decisions the model of that function mirrors.
+// as source text: the table of decisions the model of that function mirrors. The text is printed from the
+// alpha-normalised declaration (receiver _r, parameters _p0, _p1, … by position, locals _v0, _v1, … by order of
+// declaration among the locals the table mentions; fields, methods, constants and package names keep theirs), so
+// that renaming a receiver, parameter or local changes nothing and a changed operator, operand or field does.
 func zlComparisons(p *Pkg, fd *ast.FuncDecl) []string {
 	var out []string
 	if fd == nil || fd.Body == nil {
 		return out
 	}
+	defer p.normalise(fd)()
+	var cmps []ast.Node
 	ast.Inspect(fd.Body, func(n ast.Node) bool {
 		if b, ok := n.(*ast.BinaryExpr); ok {
 			switch b.Op {
 			case token.EQL, token.NEQ, token.LSS, token.LEQ, token.GTR, token.GEQ:
-				out = append(out, strings.Join(strings.Fields(p.Src(b)), " "))
+				cmps = append(cmps, b)
 			}
 		}
 		return true
 	})
-	return out
+	return append(out, p.fragments(cmps)...)
 }
 
 // zlExportedMethods lists the exported methods of a named type (without the Verif* probes), sorted.
